@@ -20,7 +20,18 @@ EXTRA = [
     "x = 5\ny = 0\nfor i in range(3):\n    y += i\n    emit(y)\nif y > 2:\n    emit(x)\nelse:\n    emit(0)\nemit(y)\n",
     "def k(x):\n    emit(x)\n    return -x\nx = sorted([3, 1, 2], key = k)\nemit(x[0])\ny = [k(v) for v in x]\nemit(y[0])\n",
     "def f(x, y = 2):\n    emit(x)\n    z = lambda q: q + y\n    w = z(x)\n    emit(w)\n    return w\nx = f(1)\ny = f(x, y = 5)\nemit(y)\n",
+    # a local that shadows a module-level variable of another value: what the debugger evaluates at a stop inside f must not
+    # leak into the module
+    "x = 100\ny = 7\ndef f(v):\n    x = v * 2\n    emit(x)\n    y = x + 1\n    emit(y)\n    return x\nr = f(4)\nemit(x)\nemit(y)\nr = f(x)\nemit(x)\n",
 ]
+
+# two-file sessions: breakpoints are set per file by separate setBreakpoints requests
+LIB2 = "def lf(v):\n    emit([1002, v])\n    w = v + 1\n    emit([1004, w])\n    return w\n"
+PROG2 = ("load('lib.star', 'lf')\ndef pf(v):\n    emit([3, v])\n    return lf(v)\nx = pf(1)\nemit([6, x])\n"
+         "for i in range(2):\n    x = lf(x)\nemit([9, x])\n")
+LIB2_LINES = [2, 4]
+PROG2_LINES = [3, 6, 9]
+PROG2_MODULE_LEVEL = {6, 9}
 
 
 def tag_markers(src):
@@ -83,7 +94,19 @@ def run(tier):
         for mline in ms[:3]:
             add(pi, {"kind": "dap", "breakpoints": [[mline, "x > 1"]], "mode": "continue"}, ("cond", mline))
             add(pi, {"kind": "dap", "breakpoints": [[mline, "undefined_name_q"]], "mode": "continue"}, ("badcond", mline))
-    vlib.log(f"[C18] {len(progs)} programs, {len(specs)} instrumented runs")
+    # ---- two-file sessions: every sequence of <=3 setBreakpoints requests over {file} x {none, one line, all lines}
+    menu = [("prog.star", []), ("prog.star", [PROG2_LINES[0]]), ("prog.star", PROG2_LINES),
+            ("lib.star", []), ("lib.star", [LIB2_LINES[1]]), ("lib.star", LIB2_LINES)]
+    two = []
+    for n in (1, 2, 3):
+        for seq in itertools.product(menu, repeat=n):
+            two.append(seq)
+    two_specs = [{"id": 0, "src": PROG2, "config": {"kind": "plain", "libs": [["lib.star", LIB2]]}}]
+    for seq in two:
+        two_specs.append({"id": len(two_specs), "src": PROG2,
+                          "config": {"kind": "dap", "mode": "continue", "libs": [["lib.star", LIB2]], "breakpoints": [],
+                                     "bp_calls": [[f, ls] for f, ls in seq]}})
+    vlib.log(f"[C18] {len(progs)} programs, {len(specs)} instrumented runs, {len(two_specs) - 1} two-file sessions")
     outs = vlib.run_sut("c18", specs, timeout=3600)
     base = {}
     for (pi, cfg, info), o in zip(meta, outs):
@@ -178,8 +201,47 @@ def run(tier):
                 got = per.get(l, 0)
                 if d and got != want:
                     res.violation("C18:step-into-misses-statement", {"src": src, "line": l, "executions": want, "stops": got})
+    # ---- two-file sessions
+    touts = vlib.run_sut("c18", two_specs, timeout=3600)
+    tb = touts[0]
+    thits = {}
+    for e in tb.get("out", []):
+        m = re.match(r"^L#0\[i(\d+),", e)
+        if m:
+            thits[int(m.group(1))] = thits.get(int(m.group(1)), 0) + 1
+    for s, o in zip(two_specs[1:], touts[1:]):
+        checks += 1
+        cfg = s["config"]
+        if "crash" in o or "panic" in o or o.get("hang") or any(k in o for k in ("parse_error", "resolve_error", "set_breakpoints_error", "bad_config")):
+            res.violation("C18:two-file:crash-or-hang", {"src": PROG2, "lib": LIB2, "config": cfg, "out": {k: o[k] for k in o if k != "stops"}})
+            continue
+        if (o["out"], o["res"], o["err"]) != (tb["out"], tb["res"], tb["err"]):
+            res.violation("C18:two-file:interference", {"src": PROG2, "lib": LIB2, "config": cfg, "plain": tb["out"], "instrumented": o["out"]})
+            continue
+        final = {}
+        for f, ls in cfg["bp_calls"]:
+            final[f] = ls          # the last request for a file replaces that file's breakpoints, and only that file's
+        want = {}
+        for f, ls in final.items():
+            for l in ls:
+                key = 1000 + l if f == "lib.star" else l
+                want[(f, l)] = thits.get(key, 0)
+        got = {}
+        for st in o["stops"]:
+            k = (st["file"], st["line"])
+            got[k] = got.get(k, 0) + 1
+        # module-level lines may stop twice per execution: known finding C18:module-level-breakpoint-stops-twice, which the
+        # single-file part reports; here either count is accepted for those lines
+        def ok(k):
+            w, g = want.get(k, 0), got.get(k, 0)
+            return g == w or (k[0] == "prog.star" and k[1] in PROG2_MODULE_LEVEL and g == 2 * w)
+        if not all(ok(k) for k in set(want) | set(got)):
+            res.violation("C18:two-file:stops", {"src": PROG2, "lib": LIB2, "bp_calls": cfg["bp_calls"],
+                                                  "expected_stops": [[k[0], k[1], v] for k, v in sorted(want.items()) if v],
+                                                  "stops": [[k[0], k[1], v] for k, v in sorted(got.items())]})
     res.coverage = {
-        "evaluations": len(specs),
+        "two_file_sessions": len(two_specs) - 1,
+        "evaluations": len(specs) + len(two_specs),
         "distinct_nontrivial": len(distinct),
         "rule": "every control-flow skeleton program of <=3/4 statements (module level and in a def) + 8 call/recursion/closure/failure "
                 "programs, one statement per line, markers emit([line, value]); configurations: plain, GC at every safepoint, each of "
@@ -188,7 +250,10 @@ def run(tier):
                 "first marker, conditional breakpoints (true/false per hit, and a failing condition). Oracles: transcript/result/"
                 "error identical to the plain run; stops at a line == executions of that line counted from the plain transcript; "
                 "locals `x` shown and evaluate('x') equal the value the marker prints; no stop without a breakpoint; 10 s watchdog "
-                "per session (hang = violation). distinct_nontrivial = distinct (program, transcript) pairs",
+                "per session (hang = violation). Two-file sessions: a program that loads a library and calls into it, EVERY sequence of "
+                "<=3 setBreakpoints requests over {prog, lib} x {none, one line, all lines}: stops per (file, line) == executions of "
+                "that line under the breakpoint set that results when each request replaces exactly its own file's breakpoints. "
+                "distinct_nontrivial = distinct (program, transcript) pairs",
         "programs": len(progs),
         "samples": [progs[0][0], progs[len(progs) // 2][0]],
     }
